@@ -1,6 +1,6 @@
 ---------------------------- MODULE AdmissionObserve ----------------------------
 (* Judges records produced by the real code (vh admit): the verdict of
-   scheduler.NewExecutionGraph / agent.Run for a dependency graph must equal the declarative
+   scheduler.NewExecutionGraph / NewExecutionGraphForRetry / agent.Run for a dependency graph must equal the declarative
    Admissible of Props_Admission, and a refused run must have left no side effect.          *)
 EXTENDS Props_Admission, TLC, Json
 
@@ -13,6 +13,10 @@ R == Trace[l]
 Clauses(r) ==
   (IF r.accepted # Admissible(r.deps)
      THEN {IF r.accepted THEN "C14_AdmittedIllFormed" ELSE "C14_RefusedWellFormed"} ELSE {})
+  \* the constructor a retry uses (NewExecutionGraphForRetry on the recorded steps) admits by the same rule
+  \cup (IF r.kind = "graph" /\ r.retry = "hung" THEN {"C14_RetryAdmissionNeverEnds"} ELSE {})
+  \cup (IF r.kind = "graph" /\ r.retry = "accepted" /\ ~Admissible(r.deps) THEN {"C14_RetryAdmittedIllFormed"} ELSE {})
+  \cup (IF r.kind = "graph" /\ r.retry = "refused" /\ Admissible(r.deps) THEN {"C14_RetryRefusedWellFormed"} ELSE {})
   \cup (IF r.kind = "agent" /\ ~r.accepted /\ (r.executed \/ r.history > 0 \/ r.sockLeft)
      THEN {"C14_RefusedRunLeftEffects"} ELSE {})
   \cup (IF r.kind = "agent" /\ r.hung THEN {"C14_AdmittedRunNeverEnds"} ELSE {})
